@@ -579,3 +579,49 @@ def replay_event_beyond_until(case):
     ok = not hung and (stepped == exp or case["consumer"] == "hybrid")
     return ok, (f"A (time-based) -> B ({case['consumer']}), initial event of B at {case['initial_event_at']}, until={case['until']}: "
                 f"{'run() still waiting after 4 s' if hung else 'run() returned'}; B stepped at that time: {stepped}")
+
+
+def replay_settled_at_end(case):
+    """C05: a simulator inside a group (tiered time of depth 2) whose earliest queued step is `nxt`; its progress is then
+    moved to the end of the simulation (until:0) by the rest of the system.  next_step_settled must come back (False
+    if the step lies at or beyond the end, True if the step is reached): it must not keep waiting."""
+    import asyncio
+    import mosaik
+    from mosaik import scheduler
+    from mosaik.progress import Progress
+    from mosaik.simmanager import SimRunner
+    from mosaik.tiered_time import TieredTime
+    from tqdm import tqdm
+    nxt, until = TieredTime(*case["queued_tiered_step"]), case["until"]
+    world = mosaik.World({}, skip_greetings=True)
+    world.until, world.rt_factor = until, None
+    sim = SimRunner("S-0", _StubProxy("event-based"), depth=2)
+    sim.tqdm = tqdm(disable=True)
+    world.sims["S-0"] = sim
+    sim.next_steps = [nxt]
+    sim.progress = Progress(TieredTime(min(nxt.time, until) - 2, 0))
+
+    async def main():
+        task = asyncio.ensure_future(scheduler.next_step_settled(sim, world))
+        for _ in range(5):
+            await asyncio.sleep(0)
+        end = TieredTime(until, 0)
+        sim.progress.set(min(nxt, end))          # the rest of the system lets the progress advance as far as it can
+        for _ in range(20):
+            await asyncio.sleep(0)
+        done = task.done()
+        res = task.result() if done else None
+        if not done:
+            task.cancel()
+            for t in asyncio.all_tasks():
+                if t is not asyncio.current_task():
+                    t.cancel()
+        return done, res
+    try:
+        done, res = world.loop.run_until_complete(main())
+    finally:
+        world.loop.close()
+    exp = nxt < TieredTime(until, 0)
+    ok = done and bool(res) == exp
+    return ok, (f"grouped simulator, earliest queued step {nxt!r}, until={until}, progress advanced to min(step, end): next_step_settled "
+                f"{'returned ' + str(res) if done else 'is still waiting'} (expected {exp})")
